@@ -314,8 +314,16 @@ class _InnerLoop(Loop):
         return super().run(eng, s, st, ordinal)
 
 
+def since_outer(trace):
+    idx = -1
+    for i, e in enumerate(trace):
+        if e[0] == 'loop-head' and e[1] == 0:
+            idx = i
+    return trace[idx + 1:] if idx >= 0 else None
+
+
 def per_item(c, L):
-    ev = since_head(c.trace)
+    ev = since_outer(c.trace)
     if ev is None:
         return z3.BoolVal(True)
     if [e for e in c.trace[len(c.trace) - len(ev):] if e[0] == 'store']:
@@ -323,7 +331,14 @@ def per_item(c, L):
     if not [e for e in ev if e[0] == 'loop-head' and e[1] == 1]:
         # inner loop not entered on this pass: only for a None entry (or at the head itself)
         return z3.BoolVal(True)
-    return z3.BoolVal(True)
+    # the unit handled in this pass ends with ALL its inputs rewired - however the inner loop was left
+    item = c.st.env.get('item')
+    old = c.st.ghost.get('inputs_at_inner_entry')
+    cur = c.st.objs.get(item.oid, {}).get('_inputs') if item is not None and item.k == 'ref' else None
+    if cur is None or old is None or 'arr' not in cur.extra or 'arr' not in old.extra:
+        return z3.BoolVal(False)
+    n = old.extra['len']
+    return z3.And(cur.extra['len'] == n, rewired(cur.extra['arr'], old.extra['arr'], n, n))
 
 
 def ru_post(c):
